@@ -11,11 +11,13 @@ import (
 
 var table = map[string]func(tier string) int{
 	"C02": checks.C02,
+	"C03": checks.C03,
 	"C07": checks.C07,
 	"C08": checks.C08,
 	"C09": checks.C09,
 	"C10": checks.C10,
 	"C11": checks.C11,
+	"C20": checks.C20,
 }
 
 func main() {
